@@ -66,6 +66,8 @@ class Algebra:
         self.canon = {}
 
     def fatom(self, kind, arg):
+        if not arg:
+            return P(0) if kind == 'sin' else P(1)
         key = (kind, tuple(sorted(arg.items())))
         if key not in self.canon:
             name = '%s(%s)' % (kind, show(arg))
@@ -140,9 +142,9 @@ class Algebra:
                     return self.vec(atom(e.n + '.x'), atom(e.n + '.y'))
                 return atom(e.n)
             v = self.value(bb, env)
-            if self.isvec(v) and e.n in ('x', 'u'):
+            if self.isvec(v) and e.n in ('x', 'u', 're'):
                 return v[1]
-            if self.isvec(v) and e.n in ('y', 'v'):
+            if self.isvec(v) and e.n in ('y', 'v', 'im'):
                 return v[2]
             raise Unsupported('member %s of non-vector' % e.n)
         if k == 'ArraySubscriptExpr':
